@@ -69,6 +69,10 @@ fn fixed_cases() -> Vec<RuleCase> {
         f("x\\d{2,}y (regex)", &[("x123y\n", true), ("x1y\n", false)]),
         // unbalanced parentheses must not get out of the whole-line anchoring
         f("a)|(b (regex)", &[("axyz\n", false), ("xyzb\n", false)]),
+        // a character class followed by a literal `]`; a nested class (valid regular expressions that scrut's repair of
+        // "misused" character classes rewrites)
+        f("\\[[0-9]+]: .* (regex)", &[("[123]: hello\n", true), ("123: hello\n", false)]),
+        f("[a-z&&[^aeiou]]+ (regex)", &[("bcd\n", true), ("abc\n", false)]),
         // escaped: `\x` and `\0` take hexadecimal / octal digits, not a sign
         f("\\x+f (escaped)", &[("\x0f\n", false)]),
         f("\\x{1F600}! (regex)", &[("\u{1F600}!\n", true)]),
@@ -409,6 +413,11 @@ impl Engine for VcRules {
                     }
                     if got != *want {
                         fail("documented-example", format!("`{text}` matches {l:?} = {want}"), format!("{got}"), &mut res);
+                        if text.starts_with("\\[[0-9]+]") || text.starts_with("[a-z&&") {
+                            if let Some(f) = res.findings.last_mut() {
+                                f.tags.push("character-class-repair".into());
+                            }
+                        }
                     }
                 }
             }
